@@ -152,6 +152,8 @@ def c14_cases(ctx, binary, root, rnd, n):
         if use_toml:
             for cat in ("opt", "vuln", "qa"):
                 names = [x for x in allnames[cat] if rnd.random() < 0.5]
+                if rnd.random() < 0.2:
+                    names = []          # an explicitly empty section: nothing of that category is analysed
                 rnd.shuffle(names)
                 # random letter case of every name
                 cased = ["".join(ch.upper() if rnd.random() < 0.3 else ch for ch in x) for x in names]
@@ -169,7 +171,7 @@ def c14_cases(ctx, binary, root, rnd, n):
             cfg = os.path.join(d, "cfg.toml")
             open(cfg, "w").write("\n".join(lines) + "\n")
             args += ["--toml", cfg]
-            toml_enc = ";".join(["path=" + hexs(tp)] + [f"{c}=" + ",".join(hexs(x) for x in sel[c]) for c in ("opt", "vuln", "qa")])
+            toml_enc = ";".join(["path=" + hexs(tp)] + [f"{c}=" + ",".join("x" + hexs(x) for x in sel[c]) for c in ("opt", "vuln", "qa")])
         cli_path = os.path.join(d, "cli") if use_cli else None
         if use_cli:
             args += ["--path", cli_path]
@@ -209,24 +211,31 @@ def c18_cases(ctx, binary, root, rnd, n, use_strace=False):
         other = os.path.join(d, "elsewhere")
         os.makedirs(other)
         open(os.path.join(other, "keep.txt"), "w").write("untouched\n")
-        mode = ["cwd_parent_default", "cwd_outside_path", "cwd_is_analysed_dir", "cwd_inside_subdir"][k % 4]
+        mode = ["cwd_parent_default", "cwd_outside_path", "cwd_is_analysed_dir", "cwd_inside_subdir", "cwd_outside_toml_path"][k % 5]
         if mode == "cwd_parent_default":
             cwd, args = proj, []
         elif mode == "cwd_outside_path":
             cwd, args = other, ["--path", os.path.join(proj, "contracts")]
         elif mode == "cwd_is_analysed_dir":
             cwd, args = os.path.join(proj, "contracts"), ["--path", "."]
+        elif mode == "cwd_outside_toml_path":
+            # the analysed directory comes from a configuration file that lies somewhere else again
+            cfgdir = os.path.join(d, "conf")
+            os.makedirs(cfgdir)
+            cfg = os.path.join(cfgdir, "Solstat.toml")
+            open(cfg, "w").write("path = '%s'\noptimizations = [\"address_zero\", \"sstore\"]\nvulnerabilities = [\"floating_pragma\"]\nqa = []\n" % os.path.join(proj, "contracts"))
+            cwd, args = other, ["--toml", os.path.relpath(cfg, other)]
         else:
             cwd, args = os.path.join(proj, "contracts", "sub"), ["--path", ".."]
         # every fifth case: a configuration that selects no pattern at all, so that the run has no finding — the
         # report must still be (re)written
-        if k % 5 == 4:
+        if k % 7 == 4 and mode != "cwd_outside_toml_path":
             cfg = os.path.join(d, "none.toml")
             open(cfg, "w").write("optimizations = []\nvulnerabilities = []\nqa = []\n")
             args = args + ["--toml", cfg]
             if mode == "cwd_parent_default":
                 args = args + ["--path", os.path.join(proj, "contracts")]
-        stale = rnd.random() < 0.6 if k % 5 != 4 else (k % 10 == 4)
+        stale = rnd.random() < 0.6 if k % 7 != 4 else (k % 14 == 4)
         if stale:
             open(os.path.join(cwd, "solstat_report.md"), "w").write("STALE REPORT\n- Fake.sol:1\n" * (rnd.randrange(1, 50) if rnd.random() < 0.5 else 40000))
         before = snapshot(d)
